@@ -2,6 +2,7 @@
    AMD64 CONTEXT layout gives it. *)
 From Coq Require Import List NArith ZArith Arith Lia Bool ZifyNat ZifyN ZifyBool.
 From MDW Require Import Bytes CpuCtx GenTypes Generated CtxModel.
+From MDW Require Export CtxSpec.
 Import ListNotations.
 Local Open Scope nat_scope.
 
@@ -108,31 +109,7 @@ Section Ctx.
   Qed.
 End Ctx.
 
-(* ---- the tables regenerated from the source are the expected ones ---- *)
-Definition expected_ptrace_table : list (cfield * src) :=
-  [ (C_context_flags, SConst 0x10000f);
-    (C_cs, SReg R_cs); (C_ds, SReg R_ds); (C_es, SReg R_es); (C_fs, SReg R_fs); (C_gs, SReg R_gs); (C_ss, SReg R_ss);
-    (C_eflags, SReg R_eflags);
-    (C_dr0, SDreg 0); (C_dr1, SDreg 1); (C_dr2, SDreg 2); (C_dr3, SDreg 3); (C_dr6, SDreg 6); (C_dr7, SDreg 7);
-    (C_rax, SReg R_rax); (C_rcx, SReg R_rcx); (C_rdx, SReg R_rdx); (C_rbx, SReg R_rbx); (C_rsp, SReg R_rsp);
-    (C_rbp, SReg R_rbp); (C_rsi, SReg R_rsi); (C_rdi, SReg R_rdi);
-    (C_r8, SReg R_r8); (C_r9, SReg R_r9); (C_r10, SReg R_r10); (C_r11, SReg R_r11); (C_r12, SReg R_r12);
-    (C_r13, SReg R_r13); (C_r14, SReg R_r14); (C_r15, SReg R_r15); (C_rip, SReg R_rip) ]%N.
-Definition expected_ucontext_table : list (cfield * src) :=
-  [ (C_context_flags, SConst 0x10000b);
-    (C_cs, SGregShiftMask G_CSGSFS 0 0xffff); (C_fs, SGregShiftMask G_CSGSFS 32 0xffff); (C_gs, SGregShiftMask G_CSGSFS 16 0xffff);
-    (C_eflags, SGreg G_EFL);
-    (C_rax, SGreg G_RAX); (C_rcx, SGreg G_RCX); (C_rdx, SGreg G_RDX); (C_rbx, SGreg G_RBX); (C_rsp, SGreg G_RSP);
-    (C_rbp, SGreg G_RBP); (C_rsi, SGreg G_RSI); (C_rdi, SGreg G_RDI);
-    (C_r8, SGreg G_R8); (C_r9, SGreg G_R9); (C_r10, SGreg G_R10); (C_r11, SGreg G_R11); (C_r12, SGreg G_R12);
-    (C_r13, SGreg G_R13); (C_r14, SGreg G_R14); (C_r15, SGreg G_R15); (C_rip, SGreg G_RIP) ]%N.
-Definition expected_xtable : list (xfield * src) :=
-  [ (X_control_word, SFp FP_cwd 0); (X_status_word, SFp FP_swd 0); (X_tag_word, SFp FP_ftw 1);
-    (X_error_opcode, SFp FP_fop 0); (X_error_offset, SFp FP_rip 4); (X_data_offset, SFp FP_rdp 4);
-    (X_error_selector, SConst 0); (X_data_selector, SConst 0);
-    (X_mx_csr, SFp FP_mxcsr 0); (X_mx_csr_mask, SFp FP_mxcr_mask 0) ]%N.
-Definition expected_copies : list (xarray * fparray) := [(XA_float_registers, FA_st_space); (XA_xmm_registers, FA_xmm_space)].
-
+(* ---- the tables regenerated from the source are the expected ones (CtxSpec.v) ---- *)
 Lemma generated_tables :
   ptrace_table = expected_ptrace_table /\ ptrace_xtable = expected_xtable /\ ptrace_copies = expected_copies /\
   ucontext_table = expected_ucontext_table /\ ucontext_xtable = expected_xtable /\ ucontext_copies = expected_copies.
